@@ -311,7 +311,7 @@ func (p *polling) DoWrite(ctx *types.HttpContext, data types.BufferInterface, op
 		return
 	}
 
-	encoding := utils.Contains(ctx.Headers().Peek("Accept-Encoding"), []string{"gzip", "deflate", "br", "zstd"})
+	encoding := acceptedEncoding(ctx.Headers().Peek("Accept-Encoding"), []string{"gzip", "deflate", "br", "zstd"})
 	if encoding == "" {
 		respond(data, strconv.Itoa(data.Len()))
 		return
@@ -329,6 +329,27 @@ func (p *polling) DoWrite(ctx *types.HttpContext, data types.BufferInterface, op
 
 	headers.Set("Content-Encoding", encoding)
 	respond(buf, strconv.Itoa(buf.Len()))
+}
+
+// acceptedEncoding returns the first of the supported content codings that the
+// Accept-Encoding header value names as a coding token (not merely as a substring)
+// and does not refuse with a zero quality value.
+func acceptedEncoding(header string, supported []string) string {
+	for _, candidate := range supported {
+		for _, part := range strings.Split(header, ",") {
+			name, params, _ := strings.Cut(part, ";")
+			if !strings.EqualFold(strings.TrimSpace(name), candidate) {
+				continue
+			}
+			if q, ok := strings.CutPrefix(strings.TrimSpace(params), "q="); ok {
+				if v, err := strconv.ParseFloat(strings.TrimSpace(q), 64); err == nil && v == 0 {
+					break
+				}
+			}
+			return candidate
+		}
+	}
+	return ""
 }
 
 // Compresses data.
